@@ -3,6 +3,7 @@ package oracle
 import (
 	"fmt"
 	"sort"
+	"strings"
 
 	"verif/ev"
 )
@@ -500,6 +501,11 @@ func (a *Analyzer) onServeExit(n *nodeState, r *ev.Rec) {
 		a.stat("serve-exits-lock-exists")
 	default:
 		a.find("C15", "serve-returned-error", "serve-returned-error:"+firstWords(r.Err, 4), r.Q, "Serve of %s returned %q", n.key, r.Err)
+		if strings.Contains(r.Err, "snapshots.open") {
+			// C09: the snapshot a follower needs (the log before it is gone)
+			// cannot be opened: the node cannot bring that follower up to date
+			a.find("C09", "snapshot-for-a-follower-cannot-be-opened", "", r.Q, "Serve of %s returned %q: the snapshot it regards as its current one is not on disk, and a follower needs it", n.key, r.Err)
+		}
 	}
 }
 
